@@ -21,7 +21,10 @@ RULE = ('operation histories over 1-4 metric families (six types) x 0-3 label na
         'str-/int-mix-in and plain enums with default and own __str__, objects whose str() collides with another value\'s '
         '(drawn from groups in which several values share str() and others share only the payload/hash); the reference model '
         'is keyed by str(value); remove/clear; exhaustive to depth 3 over a 12-op alphabet on one '
-        'labelled family of each type and over {positional update, keyword update, remove} x 3 values + clear for six '
+        'labelled family of each type, over a 12-step alphabet of info() calls whose argument is a long-lived mapping object '
+        'of the caller (dict / dict subclass refilled in place and passed again: accepted, rejected, other child, other '
+        'family; refilled by the caller with no library call in between - a step after which collect() must be unchanged) '
+        'and over {positional update, keyword update, remove} x 3 values + clear for six '
         'triples (non-str value, the string it shows as, the string it holds); pair histories over every group x six types '
         'x 1-2 labels; random histories of length 5-60 beyond; collect() and the exception class are '
         'compared after every step; non-trivial = at least 3 accepted updates and one rejected call or remove/clear; '
@@ -39,7 +42,10 @@ ASSUMPTIONS = ['label names of a family and the states of an Enum are pairwise d
                'single process, values.MutexValue cells (no PROMETHEUS_MULTIPROC_DIR); one thread',
                'keyword arguments are a dict (distinct keys)',
                'bucket bounds are not NaN; remove()/clear() are called on the family object, clear() only on labelled families',
-               '_created samples and exemplars are not observed']
+               '_created samples and exemplars are not observed',
+               'the argument objects of the calls (info mappings) are the caller\'s: the caller may keep, refill and pass them '
+               'again; objects handed to the CONSTRUCTORS (states, buckets, labelnames) and objects returned by collect() are '
+               'not modified afterwards']
 TIME_BUDGET = {'quick': 100, 'thorough': 1200}
 
 INF = math.inf
@@ -67,7 +73,11 @@ def unhex(h):
 #   addr   : 'P' | ['pos', [labelv..]] | ['kw', [[name, labelv]..]] | ['both', [labelv..], [[name, labelv]..]]
 #   mop    : ['inc'] | ['inc', amount] | ['dec'] | ['dec', amount] | ['set', amount] | ['obs', amount] | ['reset']
 #          | ['info', [[k, v-or-None]..]] | ['state', s]
+#          | ['info', [[k, v-or-None]..], slot]   the argument is the caller's OWN mapping object number `slot` (one object per
+#                                                 slot and history, shared by all families), refilled in place with these items
+#                                                 before the call - the object given to earlier info() calls is re-used
 #   op     : ['upd', f, addr, mop] | ['labels', f, addr] | ['remove', f, [labelv..]] | ['clear', f]
+#          | ['mut', f, slot, [[k, v-or-None]..]]  no library call: the caller refills its mapping object `slot` (f is unused)
 #   family : {'kind', 'name', 'labels': [..], 'buckets': None | [amount..], 'states': [..]}
 #   case   : {'fams': [family..], 'ops': [op..]}  |  {'mk': family}
 # ----------------------------------------------------------------------------------------------------------------
@@ -284,7 +294,23 @@ def target(m, addr):
     return m.labels(*[dec_lv(v) for v in addr[1]], **{k: dec_lv(v) for k, v in addr[2]})
 
 
-def apply_mop(t, mop):
+class CallerDict(dict):
+    """a dict subclass owned by the caller"""
+
+
+def caller_mapping(slots, slot, items):
+    """the caller's mapping object number `slot`, refilled IN PLACE with `items` (created on first use: a plain dict for even
+    slots, a dict subclass for odd ones)"""
+    if slot not in slots:
+        slots[slot] = CallerDict() if slot % 2 else {}
+    d = slots[slot]
+    d.clear()
+    for a, b in items:
+        d[a] = b
+    return d
+
+
+def apply_mop(t, mop, arg=None):
     k = mop[0]
     if k == 'inc':
         return t.inc(*[dec_amount(a) for a in mop[1:]])
@@ -297,7 +323,7 @@ def apply_mop(t, mop):
     if k == 'reset':
         return t.reset()
     if k == 'info':
-        return t.info({a: b for a, b in mop[1]})
+        return t.info({a: b for a, b in mop[1]} if arg is None else arg)
     if k == 'state':
         return t.state(mop[1])
     raise AssertionError(mop)
@@ -314,12 +340,18 @@ def impl(case):
         return [['ok', observe(reg)]]
     fams = [construct(fd, reg) for fd in case['fams']]
     obs = [['ok', observe(reg)]]
+    slots = {}                      # the caller's own mapping objects, alive for the whole history
     for op in case['ops']:
         err = None
         try:
             m = fams[op[1]]
-            if op[0] == 'upd':
-                apply_mop(target(m, op[2]), op[3])
+            if op[0] == 'mut':
+                caller_mapping(slots, op[2], op[3])
+            elif op[0] == 'upd':
+                arg = None
+                if op[3][0] == 'info' and len(op[3]) > 2:      # the caller fills its object, then makes the call with it
+                    arg = caller_mapping(slots, op[3][2], op[3][1])
+                apply_mop(target(m, op[2]), op[3], arg)
             elif op[0] == 'labels':
                 target(m, op[2])
             elif op[0] == 'remove':
@@ -428,13 +460,21 @@ def model(m, case):
             return [[d_outcome(r[1]), []]]
         r = m.call('c01_run', ORIG, [sx_family(dict(fd, buckets=None if fd.get('buckets') is None else fd['buckets']))], [])
         return [['ok', [d_sample(s) for fam in r[0] for s in fam]]]
-    r = m.call('c01_run', ORIG, [sx_family(fd) for fd in case['fams']], [sx_op(o) for o in case['ops']])
+    # a 'mut' step is no call into the library: the model is not stepped and predicts the same exposition as before it.
+    # The model takes an info() argument by value (its items at the time of the call), whatever object carries them.
+    r = m.call('c01_run', ORIG, [sx_family(fd) for fd in case['fams']], [sx_op(o) for o in case['ops'] if o[0] != 'mut'])
     cur = [[d_sample(s) for s in fam] for fam in r[0]]
     obs = [['ok', [s for fam in cur for s in fam]]]
-    for out, changed in r[1:]:
+    steps = iter(r[1:])
+    for op in case['ops']:
+        if op[0] == 'mut':
+            obs.append(['ok', list(obs[-1][1])])
+            continue
+        out, changed = next(steps)
         for idx, samples in changed:
             cur[int(idx)] = [d_sample(s) for s in samples]
         obs.append([d_outcome(out), [s for fam in cur for s in fam]])
+    assert next(steps, None) is None
     return obs
 
 
@@ -581,6 +621,8 @@ class Ref:
 
     def step(self, op):
         """returns 'ok' | 'ValueError' | 'raises'; the state changes only as the property allows"""
+        if op[0] == 'mut':
+            return 'ok'                 # not a call of the library: nothing exposed may change
         fam = self.fams[op[1]]
         try:
             if op[0] == 'upd':
@@ -1086,6 +1128,19 @@ def gen_history(rng, nfam=None, length=None):
             ops.append(['labels', f, gen_addr(rng, fd, small)])
         else:
             ops.append(['upd', f, gen_addr(rng, fd, small), gen_mop(rng, fd)])
+    # the caller keeps the mapping objects it passes to info() and goes on using them: in about half of the histories with an
+    # Info family most info() arguments are one of two long-lived objects refilled in place (shared by all families and
+    # children), and the caller also refills them between calls
+    infos = [fd for fd in fams if fd['kind'] == 'info']
+    if infos and rng.random() < 0.55:
+        out = []
+        for op in ops:
+            if op[0] == 'upd' and op[3][0] == 'info' and rng.random() < 0.75:
+                op = op[:3] + [op[3] + [rng.randrange(2)]]
+            out.append(op)
+            if rng.random() < (0.25 if op[0] == 'upd' and op[3][0] == 'info' else 0.04):
+                out.append(['mut', op[1], rng.randrange(2), gen_mop(rng, rng.choice(infos))[1]])
+        ops = out
     return dict(fams=fams, ops=ops)
 
 
@@ -1118,6 +1173,19 @@ def alphabet(kind):
              ['upd', 0, s1, ['state', 'c']], ['upd', 0, one, ['state', 'b']], ['upd', 0, 'P', ['state', 'a']],
              ['upd', 0, ['pos', [['s', 'a'], ['s', 'b']]], ['state', 'a']], ['upd', 0, a, ['state', 'c']]]
     return m + common
+
+
+def reuse_alphabet():
+    """info() on one labelled Info family where the caller passes its own mapping object(s) again and again, refilled in
+    place: accepted and rejected calls through the same object on the same and on another child, a call with a fresh
+    mapping, the caller refilling its object without any call, remove"""
+    a, one = ['pos', [['s', 'a']]], ['kw', [['l', ['i', 1]]]]
+    return [['upd', 0, a, ['info', [['v', '1']], 0]], ['upd', 0, a, ['info', [['v', '2'], ['w', '']], 0]],
+            ['upd', 0, a, ['info', [['l', 'x']], 0]], ['upd', 0, a, ['info', [['v', None]], 0]],
+            ['upd', 0, one, ['info', [['v', '3']], 0]], ['upd', 0, 'P', ['info', [['v', '4']], 0]],
+            ['upd', 0, a, ['info', [['v', '5']], 1]], ['upd', 0, a, ['info', [['v', '6']]]],
+            ['mut', 0, 0, [['v', '7'], ['u', '']]], ['mut', 0, 0, [['l', 'y'], ['w', None]]], ['mut', 0, 1, []],
+            ['remove', 0, [['s', 'a']]]]
 
 
 def exhaustive_family(kind):
@@ -1155,6 +1223,11 @@ def cases(ctx):
         fd = exhaustive_family(kind)
         for seq in itertools.product(range(len(alpha)), repeat=3):
             yield dict(fams=[fd], ops=[alpha[i] for i in seq])
+    # info() arguments that are long-lived mapping objects of the caller: exhaustive depth 3 over a 12-step alphabet
+    alpha = reuse_alphabet()
+    fd = exhaustive_family('info')
+    for seq in itertools.product(range(len(alpha)), repeat=3):
+        yield dict(fams=[fd], ops=[alpha[i] for i in seq])
     # every amount of the quantifier's classes through every amount-taking method, on a labelled and an unlabelled family
     every = F_ORD + F_HUGE + F_TINY + F_NEG + F_SPECIAL + I_SMALL + I_NEG + I_HUGE + I_UNCONV + BOOLS
     for kind, meths in (('counter', ['inc']), ('gauge', ['inc', 'dec', 'set']), ('summary', ['obs']), ('histogram', ['obs'])):
@@ -1235,6 +1308,8 @@ def classify(case, obs):
     for (o, _s), op in zip(obs[1:], case['ops']):
         keys.append('outcome:' + cls3(o))
         keys.append('op:' + op[0] + (':' + op[3][0] if op[0] == 'upd' else ''))
+        if op[0] == 'upd' and op[3][0] == 'info':
+            keys.append('info-argument:' + ('caller-object-reused' if len(op[3]) > 2 else 'fresh-dict'))
         if op[0] in ('upd', 'labels'):
             keys.append('addr:' + (op[2] if op[2] == 'P' else op[2][0]))
         if op[0] == 'upd' and len(op[3]) > 1 and op[3][0] in ('inc', 'dec', 'set', 'obs'):
